@@ -269,10 +269,10 @@ def enumerate_obligations(unit):
     return obs
 
 
-def run_verus(path, extra=()):
+def run_verus(path, extra=(), rlimit=None):
     env = dict(os.environ)
     cmd = ['verus', path, '--output-json', '--time', '--multiple-errors', '20', '--error-format=json',
-           '--rlimit', RLIMIT, '--num-threads', VERUS_THREADS] + list(extra)
+           '--rlimit', rlimit or RLIMIT, '--num-threads', VERUS_THREADS] + list(extra)
     t0 = time.time()
     try:
         r = subprocess.run(cmd, capture_output=True, text=True, env=env, cwd=os.path.dirname(path), timeout=int(os.environ.get('VERIF_VERUS_TIMEOUT', '600')))
@@ -439,6 +439,17 @@ def run_unit(name, src, scratch, verbose=False):
         f.write(text)
     res = run_verus(path)
     failures, undec = map_failures(unit, res, linemap)
+    confirmed = None
+    if failures or any('(spec/prelude region)' in u or 'rlimit' in u.lower() or 'resource limit' in u.lower() for u in undec):
+        # an SMT failure is reported only if it persists with three times the resource limit: quantifier-instantiation order
+        # makes single runs of Z3 flaky on nonlinear steps, and a flaky failure is not a fact about /repo
+        res2 = run_verus(path, rlimit=str(int(float(RLIMIT) * 3)))
+        f2, u2 = map_failures(unit, res2, linemap)
+        keep = {f['obligation'] for f in f2}
+        confirmed = dict(first=sorted({f['obligation'] for f in failures}), second=sorted(keep))
+        failures = [f for f in failures if f['obligation'] in keep]
+        undec = u2
+        res = dict(res2, wall=res['wall'] + res2['wall'])
     obs = enumerate_obligations(unit)
     failed_ids = {f['obligation'] for f in failures}
     vr = (res['json'] or {}).get('verification-results', {})
@@ -452,7 +463,7 @@ def run_unit(name, src, scratch, verbose=False):
         tb.append(ctx[:200])
     return dict(unit=name, obligations=obs, failures=failures, undecided=undec, metas=metas,
                 verified=vr.get('verified', 0), errors=vr.get('errors', 0), wall=res['wall'],
-                smt=smt_times(res), cmd=res['cmd'], trusted=tb, bundle_lines=len(lines),
+                smt=smt_times(res), cmd=res['cmd'], trusted=tb, confirmation_rerun=confirmed, bundle_lines=len(lines),
                 bundle_sha256=hashlib.sha256(text.encode()).hexdigest(), failed_ids=sorted(failed_ids),
                 smt_total_ms=((res['json'] or {}).get('times-ms', {}).get('smt', {}) or {}).get('total'))
 
